@@ -735,7 +735,7 @@ def _established_by_earlier_read(fi, node):
     top = node
     while getattr(top, '_parent', None) is not None and getattr(top, '_parent') is not fi.node:
         top = top._parent
-    body = fi.node.body
+    body = fi.main_body
     if top not in body:
         return False
     for s_ in body[:body.index(top)]:
